@@ -149,6 +149,8 @@ def q__SegwitChecker__witness_program_tuple(self, tx_context, puzzle_script, sol
         if len(solution_stack) > 0:
             err = errno.WITNESS_MALLEATED_P2SH if is_p2sh else errno.WITNESS_MALLEATED
             raise ScriptError()
+        if is_p2sh and tx_context.solution_script != self.ScriptTools.compile_push_data_list([puzzle_script]):
+            raise ScriptError()
         if witness_version == 0:
             stack, puzzle_script = self._check_witness_program_v0(tx_context.witness_solution_stack, witness_program)
             for s in stack:
